@@ -64,6 +64,13 @@ func (f *Gte) Call(s *slip.Scope, args slip.List, depth int) slip.Object {
 	}
 	pos++
 	for ; pos < len(args); pos++ {
+		if cmp, ok := exactCompare(target, args[pos]); ok {
+			if cmp < 0 {
+				return nil
+			}
+			target = args[pos]
+			continue
+		}
 		arg, target = slip.NormalizeNumber(args[pos], target)
 		switch ta := arg.(type) {
 		case slip.Fixnum:
